@@ -378,8 +378,15 @@ def bad_file(ctx, kind, tag):
 	elif kind == 'directory':
 		p.mkdir()
 	elif kind == 'truncated-gzip':
-		data = gzip.compress(b'>c1\n' + b'ACGT' * 5000 + b'\n')
+		# many records of real sequence: the first ones parse (and are searched) before the stream breaks off
+		r = random.Random(tag)
+		body = b''.join(b'>c%d\n' % i + bytes(r.choice(b'ACGT') for _ in range(300)) + b'\n' for i in range(200))
+		data = gzip.compress(body)
 		p.write_bytes(data[:len(data) // 2])
+	elif kind == 'garbage-in-the-middle':
+		r = random.Random(tag)
+		body = b''.join(b'>c%d\n' % i + bytes(r.choice(b'ACGT') for _ in range(300)) + b'\n' for i in range(120))
+		p.write_bytes(body + bytes([0xff, 0xfe, 0x81]) * 50 + b'\n>tail\nACGT\n')
 	elif kind == 'garbage':
 		p.write_bytes(bytes([0xff, 0xfe, 0x00, 0x81]) * 200)
 	elif kind == 'unreadable':
@@ -393,7 +400,7 @@ def run_fail(sh, ctx):
 	from gambit.kmers import KmerSpec
 	rng = random.Random(f'C13-fail-{ctx.seed}')
 	ks = KmerSpec(K, PREFIX)
-	kinds = ['missing', 'directory', 'truncated-gzip', 'garbage']
+	kinds = ['missing', 'directory', 'truncated-gzip', 'garbage', 'garbage-in-the-middle']
 	# which kinds make the single-file function fail (definition of "cannot be read or parsed")
 	failing = []
 	for kd in kinds:
@@ -436,6 +443,20 @@ def run_fail(sh, ctx):
 						ctx.seen('propagated_error_types', type(e).__name__)
 					else:
 						ctx.violation('returns-despite-bad-file', f'returned {len(list(res))} signatures although file {pos} ({kd}) cannot be read/parsed', w)
+					# history: a later *successful* call in the same process / on the same executor must be unaffected by the earlier failure
+					if mode in ('none', 'caller-threads', 'threads') and (t % 3 == 0 or kd in ('truncated-gzip', 'garbage-in-the-middle')):
+						try:
+							if mode == 'none':
+								res2 = gc.calc_file_signatures(ks, good, concurrency=None)
+							elif mode == 'threads':
+								res2 = gc.calc_file_signatures(ks, good, concurrency='threads', max_workers=1)
+							else:
+								res2 = gc.calc_file_signatures(ks, good, executor=ex)
+						except Exception as e:
+							ctx.violation('raises-on-good-files', f'call after an earlier failed call raised {type(e).__name__}: {e}', w)
+						else:
+							ctx.count('successful_calls_after_a_failed_call')
+							check_result(ctx, res2, exps, dict(w, history='failed call, then this successful call'), f'call after a failed call ({mode})')
 					if ex is not None:
 						try:
 							assert ex.submit(int, '3').result(30) == 3
@@ -490,7 +511,7 @@ def run_shard(sh, ctx):
 def finalize(merged, tier, seed, inconclusive):
 	c = merged['counters']
 	for n in ['forced_runs', 'orders_delivered_exactly_as_chosen', 'non_identity_orders_delivered', 'pool_runs:none', 'pool_runs:threads', 'pool_runs:processes',
-	          'failures_propagated', 'caller_executor_still_usable', 'failure_runs:processes', 'failure_runs:perm', 'yield_injections']:
+	          'failures_propagated', 'caller_executor_still_usable', 'failure_runs:processes', 'failure_runs:perm', 'yield_injections', 'successful_calls_after_a_failed_call']:
 		if c.get(n, 0) == 0:
 			inconclusive.append(f'class never observed: {n}')
 	if c.get('pool_orders_observed', 0) and c.get('pool_orders_not_identity', 0) == 0:
